@@ -36,6 +36,54 @@ def scanners(F):
     return out
 
 
+def rollback_rule(F, R, rid):
+    """failure exits of program building restore the symbol map / module table (shared by C06.B and C07.b)"""
+    # ---- B rollback
+    eng = F.one(r"\{impl Engine\}::raw_program_to_executable$")
+    builds = eng.call_blocks(r"\{impl RawProgramWithSymbols\}::build$")
+    if not builds:
+        raise CheckError("anchor lost: Engine::raw_program_to_executable no longer calls RawProgramWithSymbols::build")
+    for bb in builds:
+        after = eng.reachable_from(eng.succ(bb))
+        rb = [b for b in eng.call_blocks(r"\{impl SymbolMap\}::roll_back$") if b in after]
+        mm = [b for b in eng.call_blocks(r"\{impl ModuleManager\}::rollback_metadata$") if b in after]
+        dom = eng.dominators()
+        lens = [b for b in eng.call_blocks(r"\{impl SymbolMap\}::len$") if b in dom.get(bb, ())]
+        R.inst(rid, "Engine::raw_program_to_executable / symbol map rolled back after failed build", bool(rb),
+               "no call to SymbolMap::roll_back is reachable after RawProgramWithSymbols::build: indices interned by "
+               "a failed build stay in the symbol map and shift later definitions", eng.loc(), sample=True)
+        R.inst(rid, "Engine::raw_program_to_executable / offset read before build", bool(lens),
+               "SymbolMap::len is not read on every path before build(): the rollback offset would include the "
+               "failed program's own symbols", eng.loc())
+        R.inst(rid, "Engine::raw_program_to_executable / module metadata rolled back", bool(mm),
+               "ModuleManager::rollback_metadata is not reachable after build()", eng.loc())
+        # the Err edge: is_err()==true must lead to the rollback on every path to return
+        for ie in [b for b in eng.call_blocks(r"\{impl Result<T,E>\}::is_err$") if b in after]:
+            t, f = lib.bool_branch(eng, ie)
+            if t is None:
+                continue
+            ok, w = eng.every_path_passes_from([t], eng.returns(), rb)
+            R.inst(rid, "Engine::raw_program_to_executable / Err edge passes through roll_back", ok,
+                   "a path from the is_err()==true edge reaches the return without SymbolMap::roll_back", eng.loc())
+    comp = F.one(r"\{impl Compiler\}::compile_raw_program$")
+    snap_w = [(i, e) for i, _, e in comp.events("fld") if e[1] == "ModuleManager" and e[2] == "compiled_modules"]
+    writes = [i for i, e in snap_w if e[3].startswith("w") or e[3].startswith("d")]
+    reads = [i for i, e in snap_w if not (e[3].startswith("w") or e[3].startswith("d"))]
+    impl = comp.call_blocks(r"\{impl Compiler\}::compile_raw_program_impl$")
+    if not impl:
+        raise CheckError("anchor lost: Compiler::compile_raw_program no longer calls compile_raw_program_impl")
+    dom = comp.dominators()
+    after = comp.reachable_from(comp.succ(impl[0]))
+    R.inst(rid, "Compiler::compile_raw_program / module table snapshot before compile",
+           any(r in dom[impl[0]] for r in reads),
+           "ModuleManager.compiled_modules is not read (snapshotted) before compile_raw_program_impl", comp.loc())
+    R.inst(rid, "Compiler::compile_raw_program / module table restored on failure",
+           any(w in after for w in writes),
+           "ModuleManager.compiled_modules is never written back after compile_raw_program_impl: modules compiled by "
+           "a failing evaluation stay registered", comp.loc())
+
+
+
 def run(F, R, ctx):
     R.rule("C06.T1", "GIDX_C ⊆ GIDX_V: every opcode that the index interner (DebruijnIndicesInterner) stamps with a "
                      "SymbolMap index is executed by an interpreter arm that uses the payload as a global-slot index")
@@ -102,49 +150,7 @@ def run(F, R, ctx):
            "GlobalSlotRecycler::visit_closure can return without scanning ByteCodeLambda.body_exp: global slots referenced "
            "only by that closure's instructions are recycled while the closure is live", vc.loc(), sample=True)
 
-    # ---- B rollback
-    eng = F.one(r"\{impl Engine\}::raw_program_to_executable$")
-    builds = eng.call_blocks(r"\{impl RawProgramWithSymbols\}::build$")
-    if not builds:
-        raise CheckError("anchor lost: Engine::raw_program_to_executable no longer calls RawProgramWithSymbols::build")
-    for bb in builds:
-        after = eng.reachable_from(eng.succ(bb))
-        rb = [b for b in eng.call_blocks(r"\{impl SymbolMap\}::roll_back$") if b in after]
-        mm = [b for b in eng.call_blocks(r"\{impl ModuleManager\}::rollback_metadata$") if b in after]
-        dom = eng.dominators()
-        lens = [b for b in eng.call_blocks(r"\{impl SymbolMap\}::len$") if b in dom.get(bb, ())]
-        R.inst("C06.B", "Engine::raw_program_to_executable / symbol map rolled back after failed build", bool(rb),
-               "no call to SymbolMap::roll_back is reachable after RawProgramWithSymbols::build: indices interned by "
-               "a failed build stay in the symbol map and shift later definitions", eng.loc(), sample=True)
-        R.inst("C06.B", "Engine::raw_program_to_executable / offset read before build", bool(lens),
-               "SymbolMap::len is not read on every path before build(): the rollback offset would include the "
-               "failed program's own symbols", eng.loc())
-        R.inst("C06.B", "Engine::raw_program_to_executable / module metadata rolled back", bool(mm),
-               "ModuleManager::rollback_metadata is not reachable after build()", eng.loc())
-        # the Err edge: is_err()==true must lead to the rollback on every path to return
-        for ie in [b for b in eng.call_blocks(r"\{impl Result<T,E>\}::is_err$") if b in after]:
-            t, f = lib.bool_branch(eng, ie)
-            if t is None:
-                continue
-            ok, w = eng.every_path_passes_from([t], eng.returns(), rb)
-            R.inst("C06.B", "Engine::raw_program_to_executable / Err edge passes through roll_back", ok,
-                   "a path from the is_err()==true edge reaches the return without SymbolMap::roll_back", eng.loc())
-    comp = F.one(r"\{impl Compiler\}::compile_raw_program$")
-    snap_w = [(i, e) for i, _, e in comp.events("fld") if e[1] == "ModuleManager" and e[2] == "compiled_modules"]
-    writes = [i for i, e in snap_w if e[3].startswith("w") or e[3].startswith("d")]
-    reads = [i for i, e in snap_w if not (e[3].startswith("w") or e[3].startswith("d"))]
-    impl = comp.call_blocks(r"\{impl Compiler\}::compile_raw_program_impl$")
-    if not impl:
-        raise CheckError("anchor lost: Compiler::compile_raw_program no longer calls compile_raw_program_impl")
-    dom = comp.dominators()
-    after = comp.reachable_from(comp.succ(impl[0]))
-    R.inst("C06.B", "Compiler::compile_raw_program / module table snapshot before compile",
-           any(r in dom[impl[0]] for r in reads),
-           "ModuleManager.compiled_modules is not read (snapshotted) before compile_raw_program_impl", comp.loc())
-    R.inst("C06.B", "Compiler::compile_raw_program / module table restored on failure",
-           any(w in after for w in writes),
-           "ModuleManager.compiled_modules is never written back after compile_raw_program_impl: modules compiled by "
-           "a failing evaluation stay registered", comp.loc())
+    rollback_rule(F, R, "C06.B")
 
     # ---- S bookkeeping
     writers = {}
